@@ -20,7 +20,7 @@ import (
 type capNotifier struct{ c chan<- os.Signal }
 
 func (n *capNotifier) Notify(c chan<- os.Signal, _ ...os.Signal) { n.c = c }
-func (n *capNotifier) Stop(_ chan<- os.Signal)                  {}
+func (n *capNotifier) Stop(_ chan<- os.Signal)                   {}
 
 type scriptedSvc struct {
 	idx  int
